@@ -132,7 +132,7 @@ class SamplerMonitor:
             sh.ok('least-evaluated-first')
         # counter delta: +multiplicity on the selected keys, nothing else changes (new keys may appear with 0)
         bad = {}
-        for k in set(before) | set(after):
+        for k in set(before) | set(after) | set(out_ms):       # also a selected key the counter does not know at all
             d = after.get(k, 0) - before.get(k, 0)
             if d != out_ms.get(k, 0):
                 bad[str(k)] = d
